@@ -1985,7 +1985,7 @@ class RepeatingEngine(Engine):
             def suicide(err=None):
                 self._suicide = True
                 self.log.info("Will proceed to terminate because of kill-after-producers-done-delay")
-                if self.process is not None:
+                if self.process is not None and self.process.isAlive():
                     # VV: RepeatingEngine must be currently running, signal it to stop
                     self.process.kill()
                 else:
